@@ -31,6 +31,22 @@ theorem freeze_inv (x : XState) (sid : Nat) (code : Option Nat) (h : XInv x)
       rw [this]
       exact hc hsome
 
+theorem resetCode_inv (x : XState) (sid code : Nat) (h : XInv x) (hs : sid % 4 = 0) :
+    XInv (resetCode x sid code) := by
+  obtain ⟨hi, hf⟩ := h
+  refine ⟨hi, ?_⟩
+  intro e he
+  simp only [resetCode, List.mem_map] at he
+  obtain ⟨e0, he0, rfl⟩ := he
+  have h0 := hf e0 he0
+  split
+  · rename_i hc
+    simp only [Bool.and_eq_true, beq_iff_eq] at hc
+    refine ⟨h0.1, fun _ => ?_⟩
+    show e0.1 % 4 = 0
+    rw [hc.1]; exact hs
+  · exact h0
+
 theorem xstep_cx (x : XState) (s : XStep) : cxOf (xstep x s).st = cxOf x.st := by
   cases s with
   | api s =>
@@ -79,7 +95,7 @@ theorem xstep_inv (x : XState) (s : XStep) (h : XInv x) : XInv (xstep x s) := by
     simp only [xstep]
     split
     · rename_i hs
-      exact freeze_inv x sid (some code) h (fun _ => hs)
+      exact resetCode_inv _ sid code (freeze_inv x sid (some code) h (fun _ => hs)) hs
     · exact h
   | peerStop sid code => exact freeze_inv x sid none h (fun hc => by cases hc)
   | abandon sid => exact freeze_inv x sid none h (fun hc => by cases hc)
